@@ -232,8 +232,11 @@ def raw_history(r, layout, max_events=9, big=False):
             # the stored packet is a request the unknown-resource handler accepted (a PUT):
             # the loader hands it to that handler again
             sz = r.choice(sizes)
-            pkt = coap_msg(0, 3, r.randrange(65536), rbytes(r, r.choice([0, 2, 8])),
-                           path_opts(r.choice(["a", "bb", "d/e"])), rbytes(r, sz) if sz > 12 else b"")
+            tok = rbytes(r, r.choice([0, 2, 8]))
+            path = path_opts(r.choice(["a", "bb", "d/e"]))
+            head = len(coap_msg(0, 3, 0, tok, path, b"x")) - 1
+            # the whole stored request is sz bytes long (at most 0x10000: what the readers accept)
+            pkt = coap_msg(0, 3, r.randrange(65536), tok, path, rbytes(r, sz - head) if sz > head else b"")
             evs.append(ev_ur(r.choice(dnames), pkt))
         elif x < 0.95:
             evs.append(ev_ux(r.choice(dnames + cnames[:3])))
